@@ -21,6 +21,7 @@ pub const SHADER_MULTI: &str = "struct VA { @location(0) p: vec4<f32>, @location
 const SHADER_PARSE_ERROR: &str = "struct Data { a: vec4<f32> \n@compute fn main( {}\n";
 const SHADER_NONCONSECUTIVE: &str = "@group(0) @binding(0) var<uniform> data: vec4<f32>;\n@group(2) @binding(0) var<uniform> extra: vec4<f32>;\n@compute @workgroup_size(1) fn main() { let x = data.x + extra.x; }\n";
 const SHADER_PC: &str = "struct Pc { tint: vec4<f32>, k: f32 };\nvar<push_constant> pc: Pc;\n@group(0) @binding(0) var<uniform> u: vec4<f32>;\n@vertex fn vs_main() -> @builtin(position) vec4<f32> { return u; }\n@fragment fn fs_main() -> @location(0) vec4<f32> { return pc.tint * pc.k; }\n";
+const SHADER_TWO_PC: &str = "var<push_constant> vs_consts: vec4<f32>;\nvar<push_constant> fs_consts: vec4<f32>;\n@vertex fn vs_main() -> @builtin(position) vec4<f32> { return vs_consts; }\n@fragment fn fs_main() -> @location(0) vec4<f32> { return fs_consts; }\n";
 const SHADER_KEYWORD: &str = "struct Dispatch { static_count: u32, dyn: u32 };\n@group(0) @binding(0) var<uniform> dispatch: Dispatch;\n@compute @workgroup_size(1) fn main() { let x = dispatch.dyn; }\n";
 const SHADER_PANICS: &str = "struct Data { n: u32, items: array<f32> };\n@group(0) @binding(0) var<storage, read> data: Data;\n@compute @workgroup_size(1) fn main() { let x = data.n; }\n";
 
@@ -69,6 +70,7 @@ pub fn alphabet() -> Vec<Call> {
         // panics while printing - it must do the same everywhere, and with the formatter off it must not look for one
         Call { name: "keyword-ident", src: SHADER_KEYWORD, cfg: Config::default(), include: None },
         // two different modules whose token text exceeds 64 KiB, formatter on (pipe-buffer sized hand-offs to the formatter)
+        Call { name: "two-push-constants", src: SHADER_TWO_PC, cfg: Config::default(), include: None },
         Call { name: "BIG1-rustfmt", src: big_source(0), cfg: Config { rustfmt: true, ..Config::default() }, include: None },
         Call { name: "BIG2-rustfmt", src: big_source(1), cfg: Config { rustfmt: true, ..full }, include: None },
     ]
@@ -122,9 +124,32 @@ fn run_child(args: &[&str], env: &[(&str, String)], clear_env: bool, cwd: Option
     if let Some(d) = cwd {
         cmd.current_dir(d);
     }
-    let out = cmd.stdin(Stdio::null()).stderr(Stdio::null()).output().map_err(|e| e.to_string())?;
+    let out = cmd.stdin(Stdio::null()).stderr(Stdio::piped()).output().map_err(|e| e.to_string())?;
     let s = String::from_utf8_lossy(&out.stdout);
-    serde_json::from_str(s.trim()).map_err(|e| format!("child {:?} gave no result ({e}); status {:?}", args, out.status))
+    // the child prints exactly one line (its JSON result); anything else on stdout / stderr was written by the calls
+    let lines: Vec<&str> = s.lines().filter(|l| !l.trim().is_empty()).collect();
+    let last = lines.last().copied().unwrap_or("");
+    let mut v: Value = serde_json::from_str(last.trim()).map_err(|e| format!("child {:?} gave no result ({e}); status {:?}", args, out.status))?;
+    let extra: Vec<String> = lines[..lines.len().saturating_sub(1)].iter().map(|l| l.chars().take(200).collect()).collect();
+    let err: Vec<String> = String::from_utf8_lossy(&out.stderr).lines().filter(|l| !l.trim().is_empty()).map(|l| l.chars().take(200).collect()).collect();
+    if let Some(o) = v.as_object_mut() {
+        o.insert("extra_stdout".into(), json!(extra));
+        o.insert("extra_stderr".into(), json!(err));
+    }
+    Ok(v)
+}
+
+/// Lines a child wrote besides its result: a call that prints is a call that modifies state outside its return value.
+fn printed(v: &Value) -> Vec<String> {
+    let mut out = vec![];
+    for k in ["extra_stdout", "extra_stderr"] {
+        if let Some(a) = v[k].as_array() {
+            for l in a {
+                out.push(format!("{k}: {}", l.as_str().unwrap_or("")));
+            }
+        }
+    }
+    out
 }
 
 // ---------------------------------------------------------------------------------------------
@@ -405,11 +430,15 @@ pub fn run(tier: &str) -> i32 {
         match r {
             Ok(v) => {
                 reference.insert(i, v["digests"][0].as_str().unwrap_or("").to_string());
+                let p = printed(v);
+                if !p.is_empty() {
+                    rep.violation(format!("prints|{}", alpha[i].name), format!("the call writes to the process's standard streams: {}", p[0]), json!({"wgsl": alpha[i].src, "config": alpha[i].cfg.key(), "observed": p}));
+                }
             }
             Err(e) => machinery(&format!("C18 reference run failed: {e}")),
         }
     }
-    for (i, want) in [(0usize, "ok:"), (1, "ok:"), (2, "err:ParseError"), (3, "err:NonConsecutiveBindGroups"), (4, "panic:"), (5, "ok:"), (6, "ok:"), (7, "ok:"), (8, "ok:"), (9, "ok:"), (10, "err:ValidationError"), (11, "ok:"), (12, "ok:"), (14, "ok:"), (15, "ok:")] {
+    for (i, want) in [(0usize, "ok:"), (1, "ok:"), (2, "err:ParseError"), (3, "err:NonConsecutiveBindGroups"), (4, "panic:"), (5, "ok:"), (6, "ok:"), (7, "ok:"), (8, "ok:"), (9, "ok:"), (10, "err:ValidationError"), (11, "ok:"), (12, "ok:"), (14, "ok:"), (15, "ok:"), (16, "ok:")] {
         if !reference[&i].starts_with(want) {
             machinery(&format!("C18 alphabet input {} does not behave as designed: {}", alpha[i].name, reference[&i]));
         }
@@ -468,13 +497,13 @@ pub fn run(tier: &str) -> i32 {
             (vec![vec![5], vec![1]], 2, 200_000),
             (vec![vec![7], vec![7]], 2, 200_000),
             (vec![vec![7], vec![0], vec![1]], 1, 200_000),
-            (vec![vec![14], vec![15]], 2, 200_000),
+            (vec![vec![15], vec![16]], 2, 200_000),
             (vec![vec![5], vec![5]], 2, 200_000),
-            (vec![vec![14], vec![14]], 1, 200_000),
+            (vec![vec![15], vec![15]], 1, 200_000),
             (vec![vec![5], vec![12]], 1, 200_000),
         ]
     } else {
-        vec![(vec![vec![14], vec![15]], 1, 50_000), (vec![vec![5], vec![5]], 1, 50_000), (vec![vec![0], vec![1]], 2, 50_000), (vec![vec![0], vec![0]], 1, 50_000), (vec![vec![0, 1], vec![1]], 1, 50_000), (vec![vec![6], vec![1], vec![0]], 1, 50_000), (vec![vec![7], vec![1]], 1, 50_000), (vec![vec![5], vec![1]], 1, 50_000)]
+        vec![(vec![vec![15], vec![16]], 1, 50_000), (vec![vec![5], vec![5]], 1, 50_000), (vec![vec![0], vec![1]], 2, 50_000), (vec![vec![0], vec![0]], 1, 50_000), (vec![vec![0, 1], vec![1]], 1, 50_000), (vec![vec![6], vec![1], vec![0]], 1, 50_000), (vec![vec![7], vec![1]], 1, 50_000), (vec![vec![5], vec![1]], 1, 50_000)]
     };
     // the same thread programs again with yield points *inside* the stage walk and the type closure
     // (state that lives only for the duration of one section is invisible at section granularity)
@@ -733,7 +762,7 @@ pub fn trace_child() -> i32 {
     let _ = std::fs::metadata("/VERIF_WARMUP");
     let _ = generate(a[0].src, &a[0].cfg);
     let _ = std::fs::metadata("/VERIF_MARK_BEGIN");
-    for i in [0usize, 1, 6, 2, 3, 8, 4, 13] {
+    for i in [0usize, 1, 6, 2, 3, 8, 4, 13, 14, 9, 10] {
         let _ = a[i].run();
     }
     let _ = std::fs::metadata("/VERIF_MARK_END");
@@ -747,7 +776,7 @@ pub fn trace_fmt_child() -> i32 {
     // on the main thread itself (strace -f labels every line with the thread id; only the main thread's are judged)
     let _ = generate_with_unguarded(a[5].src, a[5].include, a[5].cfg.options());
     let _ = std::fs::metadata("/VERIF_MARK_BEGIN");
-    for i in [5usize, 14, 12, 15] {
+    for i in [5usize, 15, 12, 16] {
         let _ = generate_with_unguarded(a[i].src, a[i].include, a[i].cfg.options());
     }
     let _ = std::fs::metadata("/VERIF_MARK_END");
@@ -806,7 +835,7 @@ fn syscall_monitor(rep: &mut Report) -> Value {
     let log = root().join("target").join("c18-strace.log");
     let _ = std::fs::remove_file(&log);
     let exe = std::env::current_exe().unwrap();
-    let st = Command::new("strace").args(["-f", "-e", "trace=file,process,network", "-o"]).arg(&log).arg(&exe).args(["c18-trace", "x"]).env("VERIF_ROOT", root()).stdout(Stdio::null()).stderr(Stdio::null()).status();
+    let st = Command::new("strace").args(["-f", "-e", "trace=file,process,network,write,writev,pwrite64,sendfile", "-o"]).arg(&log).arg(&exe).args(["c18-trace", "x"]).env("VERIF_ROOT", root()).stdout(Stdio::null()).stderr(Stdio::null()).status();
     match st {
         Ok(s) if s.success() => {}
         other => return json!({"ran": false, "reason": format!("strace unavailable here: {other:?}")}),
@@ -833,9 +862,9 @@ fn syscall_monitor(rep: &mut Report) -> Value {
         return json!({"ran": false, "reason": "markers not found in the strace log"});
     }
     rep.states += 1;
-    rep.evaluations += 8;
+    rep.evaluations += 11;
     if !calls.is_empty() {
-        rep.violation("syscalls|rustfmt=off".to_string(), format!("generation with the formatter off performs file/process/network system calls: {}", calls[0]), json!({"observed": calls.iter().take(10).collect::<Vec<_>>()}));
+        rep.violation("syscalls|rustfmt=off".to_string(), format!("generation with the formatter off performs file / process / network system calls or writes to a file descriptor: {}", calls[0]), json!({"observed": calls.iter().take(10).collect::<Vec<_>>()}));
     }
-    json!({"ran": true, "file_process_network_syscalls_between_markers": calls.len(), "calls_traced": 8})
+    json!({"ran": true, "file_process_network_syscalls_between_markers": calls.len(), "calls_traced": 11})
 }
